@@ -14,6 +14,9 @@ from core import Unrecognised
 INT_TYS = {"u8", "u16", "u32", "u64", "u128", "usize", "i8", "i16", "i32", "i64", "i128", "isize"}
 
 
+UNSIGNED_BITS = {"u8": 8, "u16": 16, "u32": 32, "u64": 64, "u128": 128, "usize": 64}
+
+
 class Return(Exception):
     def __init__(self, v):
         self.v = v
@@ -122,16 +125,21 @@ class Evaluator:
             raise NeedChoice(key)
         return self.choices[key]
 
-    def call_fn(self, crate, path, args):
+    def call_fn(self, crate, path, args, final=None):
+        """Evaluate a function of an inlinable crate on argument values; `final`, when a list, receives the values its parameters
+        hold at the end (what a `&mut` parameter leaves in the caller's place)."""
         b = self.facts.body(crate, path)
         env = Env()
         for p, a in zip(b["params"], args):
             if p.get("k") == "pbind":
                 env[p["name"]] = a
         try:
-            return self.ev(b["hir"], env)
-        except Return as r:
-            return r.v
+            r = self.ev(b["hir"], env)
+        except Return as rt:
+            r = rt.v
+        if final is not None:
+            final.extend(env.get(p["name"]) if p.get("k") == "pbind" else None for p in b["params"])
+        return r
 
     def truth(self, v):
         if v[0] != "bool":
@@ -183,7 +191,12 @@ class Evaluator:
             return self.ev(e["e"], env)
         if k == "un":
             if e["op"] == "Not" and "callee" not in e:
-                return ("bool", not self.truth(self.ev(e["e"], env)))
+                v = self.ev(e["e"], env)
+                if v[0] == "int" and str(e.get("ty", "")) in UNSIGNED_BITS:
+                    return ("int", ~v[1] & ((1 << UNSIGNED_BITS[str(e["ty"])]) - 1))
+                if v[0] in ("sym", "bin", "not") and str(e.get("ty", "")) in UNSIGNED_BITS:
+                    return ("not", v)          # bitwise complement of a symbolic integer
+                return ("bool", not self.truth(v))
             if e["op"] == "Deref":
                 return self.ev(e["e"], env)
             raise Unrecognised("unary op")
@@ -226,7 +239,7 @@ class Evaluator:
                     return ("int", f(l[1], r[1]))
                 if l[0] == "bool" and r[0] == "bool" and op in ("BitAnd", "BitOr", "BitXor"):
                     return ("bool", {"BitAnd": l[1] and r[1], "BitOr": l[1] or r[1], "BitXor": l[1] != r[1]}[op])
-                if l[0] in ("sym", "bin", "int") and r[0] in ("sym", "bin", "int"):
+                if l[0] in ("sym", "bin", "int", "not") and r[0] in ("sym", "bin", "int", "not"):
                     return ("bin", op, l, r)        # a symbolic term
                 raise Unrecognised(f"arithmetic on {l} and {r}")
             raise Unrecognised(f"operator {op}")
@@ -348,6 +361,23 @@ class Evaluator:
                     new = self.atoms[key]([old, self.ev(e["r"], env)])
                     self._store(hir.simp(e["l"]), new, env)
                     return ("unit",)
+            if name and name != e.get("op"):
+                crate = name.lstrip("<&").split("::")[0]
+                if crate in self.inline_crates and name in self.facts.crate(crate)["_bodies"]:
+                    # an overloaded compound assignment: the impl runs on (&mut place, rhs); what it leaves in `self` is stored back
+                    l = hir.simp(e["l"])
+                    fin = []
+                    self.call_fn(crate, name, [self.ev(e["l"], env), self.ev(e["r"], env)], final=fin)
+                    if fin and fin[0] is not None:
+                        self._store(l, fin[0], env)
+                        return ("unit",)
+            base_op = str(e.get("op", ""))[:-len("Assign")] if str(e.get("op", "")).endswith("Assign") else None
+            if base_op and not (e.get("resolved") or e.get("callee")):
+                # a primitive compound assignment: `p op= v` is `p = p op v`
+                l = hir.simp(e["l"])
+                new = self.ev({"k": "bin", "op": base_op, "l": e["l"], "r": e["r"], "ty": l.get("ty"), "ln": e.get("ln")}, env)
+                self._store(l, new, env)
+                return ("unit",)
             raise Unrecognised(f"compound assignment {e.get('op')}")
         if k == "call":
             return self.call(e, env)
@@ -455,6 +485,17 @@ class Evaluator:
         if l.get("k") != "field":
             return False
         base = hir.peel(l["e"])
+        if base.get("k") == "local" and base["name"] in env and env[base["name"]][0] == "ctor" and l["name"].isdigit() \
+                and int(l["name"]) + 2 < len(env[base["name"]]):
+            old = env[base["name"]]
+            i = int(l["name"]) + 2
+            new = old[:i] + (v,) + old[i + 1:]
+            if isinstance(env, Env):
+                env.assign(base["name"], new)
+            else:
+                env[base["name"]] = new
+            self.stores.append((hir.place_str(l), v))
+            return True
         if base.get("k") == "local" and base["name"] in env and env[base["name"]][0] == "rec":
             rec = dict(env[base["name"]][1])
             rec[l["name"]] = v
@@ -593,6 +634,14 @@ class Evaluator:
             return ("bool", args[0][1] == "")
         crate = cal.lstrip("<&").split("::")[0]
         if crate in self.inline_crates and cal in self.facts.crate(crate)["_bodies"]:
+            first = hir.simp(e["args"][0]) if e.get("args") else None
+            by_mut = first is not None and (str(e.get("recv_adj_ty", "")).startswith("&mut") or (first.get("k") == "ref" and first.get("mut")))
+            if by_mut and hir.place_str(hir.peel(first)) is not None:
+                fin = []
+                r = self.call_fn(crate, cal, args, final=fin)
+                if fin and fin[0] is not None and fin[0] != args[0]:
+                    self._store(hir.peel(first), fin[0], env)
+                return r
             return self.call_fn(crate, cal, args)
         raise Unrecognised(f"call to {cal}")
 
